@@ -61,21 +61,26 @@ Theorem decide_requested_chunk : forall o k p i kq l,
 Proof. exact decide_requested_chunk_lemma. Qed.
 Print Assumptions decide_requested_chunk.
 
-(** decide_total_and_requested, specification level: whenever the option table reflects the structured requests,
-    every successful decision meets the specification ("the requested layout where applicable").
-    PARTIAL: the lemma [build_entries_from options_init es = Some o -> options_consistent o = true ->
-    reflects o es (threshold o)] (the table built by hrepack_addcomp/hrepack_addchunk answers lookups with the last
-    request naming the object) is not proved; its consequence is checked on every generated case by the
-    correspondence run (the driver evaluates [meets] on the library's output and compares the library's layout with
-    [decide]), and the hypothesis is met by the concrete tables of the Examples below.  The clause "else the
-    input's layout" does not hold of the code as it stands and is not claimed: an object below the threshold that is
-    stored unchunked is written uncompressed even if the input was compressed, and an object named by -c only is
-    uncompressed (its table entry carries the default type NONE). *)
-Theorem decide_total_and_requested_partial : forall o es th k p i l,
-  reflects o es th -> (k = KSds \/ k = KGr) -> o_rank i = rank_of k i ->
-  decide o k p i = Some l -> meets es th k p i l = true.
-Proof. exact decide_meets_spec_lemma. Qed.
-Print Assumptions decide_total_and_requested_partial.
+(** The option table hrepack builds (hrepack_addcomp / hrepack_addchunk, options_add_comp / options_add_chunk with
+    in-place update, refusal of a second setting, appended new names, "*" handling) answers every lookup with the
+    last request that names the object or "*", for every list of requests it accepts. *)
+Theorem build_reflects : forall es o,
+  build_entries_from options_init es = Some o -> reflects o es (threshold o).
+Proof. exact build_reflects_lemma. Qed.
+Print Assumptions build_reflects.
+
+(** decide_total_and_requested, full: for the option table built from ANY accepted list of requests, every
+    successful layout decision of copy_sds / copy_gr meets the specification: the requested compression and the
+    requested chunking are the output's whenever they are applicable ([meets], RepackSpec.v).  Together with
+    [decide_total] (when the decision can fail).  The clause "else the input's layout" does not hold of the code as
+    it stands and is not part of [meets]: an object below the threshold that is stored unchunked is written
+    uncompressed even if the input was compressed, and an object named by -c only is uncompressed (its table entry
+    carries the default type NONE). *)
+Theorem decide_total_and_requested : forall es o k p i l,
+  build_entries_from options_init es = Some o -> (k = KSds \/ k = KGr) -> o_rank i = rank_of k i ->
+  decide o k p i = Some l -> meets es (threshold o) k p i l = true.
+Proof. exact decide_total_and_requested_lemma. Qed.
+Print Assumptions decide_total_and_requested.
 
 (** parse_print_options: every -t option the parser can accept within its fixed buffers -- any non-empty list of
     names free of ':' and ',' and shorter than H4_MAX_NC_NAME, with NONE, RLE, HUFF 1..9999 or GZIP 0..9 -- is
@@ -87,17 +92,39 @@ Theorem parse_print_comp : forall names t i,
 Proof. exact parse_print_comp_lemma. Qed.
 Print Assumptions parse_print_comp.
 
-(** PARTIAL for -c: names as above, but only NONE and the shapes of rank 1..3 with lengths 1..12 (a complete finite
-    domain).  Missing for the full statement: atoi (print_nat n) = n for all 0 < n < 10^9 and an induction over the
-    rank (up to H4_MAX_VAR_DIMS). *)
-Theorem parse_print_chunk_partial : forall names r lens,
-  names <> [] -> Forall wf_name names -> In (r, lens) chunk_domain ->
+(** The same for -c, full: any non-empty list of well-formed names with NONE, or with a shape of 1 to
+    H4_MAX_VAR_DIMS lengths, each between 1 and 10^9 - 1 (nine digits are all the parser's buffer takes). *)
+Theorem parse_print_chunk : forall names r lens,
+  names <> [] -> Forall wf_name names ->
+  (r = -2 /\ lens = [] \/ r = zlen lens /\ lens <> [] /\ zlen lens <= H4_MAX_VAR_DIMS /\ Forall wf_len lens) ->
   parse_chunk (print_chunk {| ke_names := names; ke_rank := r; ke_lens := lens |}) =
   ROk {| ke_names := names; ke_rank := r; ke_lens := lens |}.
-Proof. exact parse_print_chunk_partial_lemma. Qed.
-Print Assumptions parse_print_chunk_partial.
+Proof. exact parse_print_chunk_lemma. Qed.
+Print Assumptions parse_print_chunk.
+
+(** The strip-mining copy loop of copy_sds (objects of H4TOOLS_MALLOCSIZE bytes or more): the blocks it reads and
+    writes, taken in order and each in row-major order, are exactly the cells 0, 1, ..., N-1 of the array -- every
+    value is copied once, to its own place.  The loop's statements (strip size, hyperslab size, wrap test and carry
+    rule of the next-offset loop) are regenerated from hrepack_sds.c.
+    PARTIAL: a complete small scope (rank 1..3 with extents 1..4, rank 4 with extents 1..3, element size 1 or 2,
+    every buffer size from the element size to 16 bytes; the buffer size is a parameter of the model, 1 MiB in the
+    tool).  Missing for the general statement: the induction over the rank (the strip sizes are slab-shaped: full
+    extents below one cut dimension, 1 above it; the odometer then advances the linear position by the block size).
+    The real sizes are covered by the differential run on arrays of 1x, 2x, 3x the buffer. *)
+Theorem strips_partition_in_order_partial : forall dims eltsz buf,
+  In dims small_dims -> In eltsz [1; 2] -> In buf small_bufs -> eltsz <= buf ->
+  strip_order dims eltsz buf = Some (zcount 0 (Z.to_nat (zprod dims))).
+Proof. exact strips_partition_small_lemma. Qed.
+Print Assumptions strips_partition_in_order_partial.
 
 (** Non-vacuity: concrete, non-trivial states meeting the hypotheses. *)
+Example strip_walk_runs :
+  strips [2; 3] 2 4 = Some [([0; 0], [1; 2]); ([0; 2], [1; 1]); ([1; 0], [1; 2]); ([1; 2], [1; 1])] /\
+  strip_order [2; 3] 2 4 = Some [0; 1; 2; 3; 4; 5] /\
+  strip_mined 3600000 HDF_NONE COMP_CODE_NONE = true /\ strip_mined 3600000 HDF_NONE COMP_CODE_DEFLATE = false /\
+  strip_mined 1048575 HDF_CHUNK COMP_CODE_NONE = false.
+Proof. vm_compute. repeat split; reflexivity. Qed.
+
 Definition ex_names : list str := [[103; 49; 47; 65]; [90]].          (* "g1/A", "Z" *)
 Definition ex_entries : list entry :=
   [ET {| ce_names := ex_names; ce_type := COMP_CODE_DEFLATE; ce_info := 6 |};
@@ -136,7 +163,9 @@ Example decision_fails : decide ex_options KSds [103; 49; 47; 65]
 Proof. vm_compute. reflexivity. Qed.
 
 Example domains_inhabited : In (COMP_CODE_SKPHUFF, 8) comp_domain /\ In (COMP_CODE_DEFLATE, 9) comp_domain /\
-  In (-2, []) chunk_domain /\ In (1, [7]) chunk_domain /\ Forall wf_name ex_names.
+  Forall wf_name ex_names /\ Forall wf_len [10; 999999999] /\
+  parse_chunk (print_chunk {| ke_names := ex_names; ke_rank := 2; ke_lens := [10; 999999999] |}) =
+  ROk {| ke_names := ex_names; ke_rank := 2; ke_lens := [10; 999999999] |}.
 Proof.
   split.
   { unfold comp_domain. apply in_or_app. right. apply in_or_app. left.
@@ -146,12 +175,14 @@ Proof.
   split.
   { unfold comp_domain. apply in_or_app. right. apply in_or_app. right.
     apply in_map_iff. exists 9. split; [reflexivity|]. vm_compute. tauto. }
-  split; [left; reflexivity|].
-  split.
-  { unfold chunk_domain. right. apply in_or_app. left. apply in_map_iff. exists 7. split; [reflexivity|].
-    vm_compute. tauto. }
-  repeat constructor; vm_compute; try discriminate; intuition discriminate.
+  split; [repeat constructor; vm_compute; try discriminate; intuition discriminate|].
+  split; [repeat constructor; vm_compute; intuition discriminate|].
+  vm_compute. reflexivity.
 Qed.
+
+Example entries_build : exists o, build_entries_from options_init ex_entries = Some o /\
+  decide o KSds [103; 49; 47; 65] ex_info = Some {| l_comp := 4; l_info := 6; l_chunk := Some [10; 10]; l_rec := false |}.
+Proof. eexists. split; vm_compute; reflexivity. Qed.
 
 (** [reflects] holds of the table built from the example entries (checked pointwise for the paths that occur and,
     for every other path, because no entry names it and no global request is set). *)
